@@ -201,3 +201,41 @@ func VerifC03Write() {
 	vAssertEqBytes(w.log, want, "wire bytes = concatenation of the encodings in send order")
 	vCover("c03-write-end")
 }
+
+// VerifC03WriteBig: a packet that does not fit the 4096-byte write buffer (PUBLISH with a
+// payload of symbolic length up to 8192 bytes), sent flushed or buffered between small
+// buffered sends: the wire still carries the exact concatenation of the encodings in send
+// order (nothing buffered earlier is overtaken, nothing is lost or duplicated at the
+// buffer boundary).
+func VerifC03WriteBig() {
+	w := &vWriter{}
+	enc := NewEncoder(w)
+	enc.SetMaxWriteDelay(10000000)
+	var want []byte
+	send := func(p Generic, ref []byte, async bool) {
+		vAssert(enc.Write(p, async) == nil, "write succeeds")
+		want = append(want, ref...)
+		if !async {
+			vAssertEqBytes(w.log, want, "a flushed send puts everything accepted so far on the wire")
+		}
+	}
+	if vBool("before") {
+		id := vU16("id")
+		vAssume(id != 0)
+		send(&Puback{ID: ID(id)}, refEncodeIdentified(PUBACK, ID(id)), true)
+	}
+	big := NewPublish()
+	big.Message.Topic = "t"
+	big.Message.Payload = vBytes("big", 8192)
+	send(big, refEncodePublish(big), vBool("asyncbig"))
+	if vBool("timer") {
+		vFireTimers()
+		vQuiesce()
+	}
+	if vBool("after") {
+		send(NewPingreq(), refEncodeNaked(PINGREQ), vBool("asyncafter"))
+	}
+	vAssert(enc.Flush() == nil, "flush succeeds")
+	vAssertEqBytes(w.log, want, "wire bytes = concatenation of the encodings in send order")
+	vCover("c03-writebig-end")
+}
